@@ -35,13 +35,17 @@ def feasible(spec, limits):
     return all(c <= limits.get(k, 1) for k, c in lim.items()) and all(feasible(ch, limits) for ch in spec[3])
 
 
+KF_FAILFAST = "fail-fast:run-raises-while-created-jobs-are-never-settled"
+
+
 class Check(PropertyCheck):
     id = "C09"
     module = "Props.C09"
     extra_modules = ["Model.JobTrace", "Props.C09Tree"]
     theorems = ["C09_waiting_has_waker_partial", "C09_holder_is_running", "C09_no_stuck_waiting",
                 "C09_refuted_without_recheck", "C09_witness_fixed",
-                "C09_tree_steps_bounded", "C09_tree_step_decreases", "C09_tree_quiescent_settled", "C09_tree_nonvacuous"]
+                "C09_tree_steps_bounded", "C09_tree_step_decreases", "C09_tree_quiescent_settled", "C09_tree_nonvacuous",
+                "C09_fail_fast_leaves_unsettled_refuted"]
     theorem_modules = ["Props.C09Tree"]      # closed-program termination on the tree machine
     variant = None
     assumptions = [
@@ -119,6 +123,19 @@ class Check(PropertyCheck):
                                               f"for resources with limits_used={used}",
                                          {"kind": kind, "spec": repr(o["spec"]), "limits": o["limits"],
                                           "priority": PRIORITY if kind == "witness" else None, "waiting": waiting}))
+        # "each job created ends done, cached or failed": when run raises, jobs still in flight are never settled
+        nu = 0
+        for kind, o in runs:
+            if "error" not in o:
+                continue
+            tr = o["tracer"]
+            left = [tr.jobid[j.id] for j in tr.jobobj if tr.status.get(j.id) not in (1, 2)]
+            if left:
+                nu += 1
+                self.findings.append(Finding(KF_FAILFAST, f"run raised {o['error']!r} while jobs {left[:6]} were created and "
+                                             f"never settled (their Job rows stay RUNNING)",
+                                             {"kind": kind, "spec": repr(o["spec"]), "limits": o["limits"], "unsettled": left}))
+        self.stat("oracle", "failing_runs_with_unsettled_jobs", nu)
         self.stat("oracle", "runs", len(runs))
         self.stat("oracle", "deadlocks_in_feasible_runs", nd)
         self.ob("oracle", "quiescence oracle ran on the real event loop (queue empty + nothing running + workflow pending)", True)
